@@ -108,8 +108,8 @@ def _unquiesced_related(case, is_trigger, other_side_only=False):
             lo, hi = min(i, j), max(i, j)
             if any(_quiet(it) for it in plan[lo + 1:hi]):
                 continue
-            if other_side_only and u[1] == t[1]:
-                continue
+            if other_side_only and (u[1] == t[1] or u[2] == "write"):
+                continue        # (contention for a NAME: the other user's create / delete / rename; an edit of the file is not)
             if any(_related(p, q) for p in tp for q in rel_paths(u)):
                 out.update(tp)
     return out or None
@@ -138,7 +138,7 @@ def m_rename_race(f, case, viol):
     if _file_only_stable_ids(case):
         # Narrowed (hour 12, after 8 x 60 000 surveyed runs): in histories without any folder operation, on pairs whose ids are
         # stable on both sides, case-sensitive, with an unmangled event feed, the unchanged engine only ever failed when the
-        # operation racing with the rename came from the OTHER user (contention for one name) or when one user re-used a name a
+        # operation racing with the rename was the OTHER user's create/delete/rename (contention for one name) or when one user re-used a name a
         # rename had just vacated (name swap).  One user's other renames/edits/deletes of files converge on the unchanged tree and
         # are therefore not covered by this finding.
         rp = (_unquiesced_related(case, lambda u: u[2] == "rename", other_side_only=True) or set()) | _vacated_name_reuse(case)
